@@ -18,6 +18,7 @@ type Seg struct {
 	Kind    string // exif, xmp, jfif, other...
 	Sub     *Doc   // structured payload (fields are carried over)
 	SubOff  int    // offset of Sub inside Payload
+	Fill    int    // number of 0xFF fill bytes written before the marker (ITU T.81 B.1.1.2)
 
 	Off        int // set by BuildJPEG: offset of the 0xFF of the marker
 	PayloadOff int // offset of the first payload byte
@@ -112,6 +113,9 @@ func BuildJPEG(segs []Seg, withSOI bool) (*Doc, []Seg) {
 	}
 	out := make([]Seg, len(segs))
 	for i, s := range segs {
+		for k := 0; k < s.Fill; k++ {
+			d.Bytes(0xff)
+		}
 		s.Off = len(d.B)
 		d.Bytes(0xff, s.Marker)
 		d.U16(be, uint16(len(s.Payload)+2), fmt.Sprintf("jpeg.seg%d(%s).length", i, s.Kind), "len16")
